@@ -43,7 +43,12 @@ const vUsage = `shardh: run the real mux.ShardQueue under a controlled scheduler
   s <actor> <site> [id=<i> nil=<0|1> err=<0|1>] | st= idx= tr= rn= w= r= list=a,b ll= lk=a,b g=l,l sw= al= inv= wb= se=
   ret <actor> <nil|err|panic|done>
   end <k> <quiescent|deadlock|cutoff|hang|badsched> steps=<n> preempt=<p>
-  summary runs= printed= maxpreempt= sites= deadlocks= cutoffs= hangs= exhausted= goroutines= secs=
+  summary runs= printed= maxpreempt= sites= deadlocks= cutoffs= hangs= exhausted= goroutines= [stuck=] secs=
+
+-mode stress (no controlled scheduler; works without instrumentation): scen=<word>-stress, events in real-time order
+  s A<i> begin | snap, ret A<i> nil|panic, s C<i> begin | snap, ret C<i> nil|err, s D die | snap,
+  s W0 getter id= nil= err= | snap, s W0 conn.Flush err= | snap, ret W0 panic, s X final | snap,
+  end <k> quiescent|hang steps=<s lines> preempt=0      (ll g sw are 0 except in the final line)
 `
 
 // ---------------------------------------------------------------------------------------------
@@ -58,6 +63,18 @@ type vAbort struct{}
 // because only one goroutine runs at a time; the check guards that assumption.
 var vGidCheck = 8
 var vGidCount int
+
+// vInstrumented: is the shard_queue.go of this build the instrumented copy?  Close on a fresh queue passes
+// four hooks when it is (no connection, no RunTask needed); vProbing is only written while nothing else runs.
+var vProbing bool
+var vProbeHits int
+
+func vInstrumented() bool {
+	vProbing, vProbeHits = true, 0
+	NewShardQueue(1, nil).Close()
+	vProbing = false
+	return vProbeHits > 0
+}
 
 func vGoid() int64 {
 	var buf [64]byte
@@ -74,6 +91,9 @@ func vGoid() int64 {
 
 // vPark: schedule point.  Returns the actor that was granted the step (nil outside a controlled run).
 func vPark(site, kind string, p unsafe.Pointer) *vActor {
+	if vProbing {
+		vProbeHits++
+	}
 	r := vCur
 	if r == nil || r.cur == nil {
 		return nil
@@ -824,12 +844,13 @@ func VerifShardMain(args []string) int {
 	flusherr := fs.Int("flusherr", 0, "the k-th Flush (from 1) fails")
 	spin := fs.Int("spin", 1, "a closer that saw trigger != 0 this many times is disabled until trigger == 0 or state == closed")
 	maxsteps := fs.Int("maxsteps", 2000, "step cutoff per run")
-	mode := fs.String("mode", "dfs", "dfs | rand | replay")
+	mode := fs.String("mode", "dfs", "dfs | rand | replay (controlled scheduler, need the instrumented build) | stress (real goroutines, any build)")
+	sleepp := fs.Int("sleepp", 40, "stress: per-mille probability that a perturbation point also sleeps 1-50 us")
 	pb := fs.Int("pb", 1, "dfs: preemption bound")
 	max := fs.Int("max", 1000000, "dfs: stop after this many runs")
 	partS := fs.String("part", "", "dfs: i/n, explore only the i-th of n partitions (hash of the first -partdepth choices)")
 	pdepth := fs.Int("partdepth", 20, "dfs: number of leading choices that define the partition")
-	n := fs.Int("n", 1000, "rand: number of random walks")
+	n := fs.Int("n", 1000, "rand / stress: number of runs")
 	schedS := fs.String("sched", "", "replay: actor per step, e.g. A0,A0,C0,W0 ; X* = run X while enabled ; then default policy")
 	seed := fs.Int64("seed", 1, "seed of every random choice")
 	dedup := fs.Bool("dedup", false, "print only runs whose sequence of (actor, site) pairs was not printed before")
@@ -837,11 +858,18 @@ func VerifShardMain(args []string) int {
 	outS := fs.String("o", "", "trace file (default stdout)")
 	lineflush := fs.Bool("lineflush", false, "flush after every line (default: after every run); ignored with -dedup")
 	scen := fs.String("scen", "", "scenario word of the run line (default derived from the flags)")
-	procs := fs.Int("procs", 1, "GOMAXPROCS")
+	procs := fs.Int("procs", 1, "GOMAXPROCS (default 4 with -mode stress)")
 	gidcheck := fs.Int("gidcheck", 8, "every N-th schedule point checks by goroutine id that the caller is the actor holding the step (0 never, 1 always)")
 	hangSecs := fs.Int("hang", 10, "seconds without a step before the run is reported as hang (exit 4)")
 	if err := fs.Parse(args); err != nil {
 		return 2
+	}
+	if *mode == "stress" {
+		set := false
+		fs.Visit(func(f *flag.Flag) { set = set || f.Name == "procs" })
+		if !set {
+			*procs = 4
+		}
 	}
 	runtime.GOMAXPROCS(*procs)
 	vGidCheck = *gidcheck
@@ -906,6 +934,13 @@ func VerifShardMain(args []string) int {
 		sink = vWrite
 	}
 
+	if *mode == "stress" {
+		return vStressMain(cfg, *n, *seed, *sleepp)
+	}
+	if !vInstrumented() {
+		vFatal(6, "harness built without instrumentation: no hook of mux/shard_queue.go fires, -mode "+*mode+
+			" needs the build with the instrumented replacement (common.instrument_shard); use -mode stress with this binary")
+	}
 	runner.RunTask = vRunTask
 
 	sites := map[string]int{}
